@@ -29,6 +29,8 @@ class SimTransport(transports.Transport):
         self.closed_by = None      # 'client' | 'gc' | 'peer' | 'fault'
         self.opened_at = loop.time()
         self.written = bytearray()
+        self.buffered = False      # bytes accepted while the peer's window was closed and not flushed since
+        self.linger = False        # close() is waiting for those bytes to be flushed (as _SelectorSocketTransport does)
 
     # --- transport API used by streams -------------------------------------------------
     def is_closing(self):
@@ -70,6 +72,8 @@ class SimTransport(transports.Transport):
                 return
             self.fail_after -= 1
         self.written += data
+        if self.paused:
+            self.buffered = True
         self.net.obs("write", self.cid, bytes(data))
         if self.net.on_write:
             self.net.on_write(self, bytes(data))
@@ -95,9 +99,14 @@ class SimTransport(transports.Transport):
                 break
             f = f.f_back
         self._closing = True
-        self._conn_lost += 1
         self.closed_by = by
         self.net.obs("close", self.cid, by)
+        if self.paused and self.buffered:
+            # CPython: with a non-empty write buffer close() only stops reading; connection_lost() follows once the
+            # buffer has been flushed (or the connection fails)
+            self.linger = True
+            return
+        self._conn_lost += 1
         self._loop.call_soon(self._call_connection_lost, None)
 
     def abort(self):
@@ -156,7 +165,13 @@ class SimTransport(transports.Transport):
     def _resume(self):
         if self.paused:
             self.paused = False
+            self.buffered = False
             self.net.obs("resume", self.cid)
+            if self.linger and not self._conn_lost:
+                self.linger = False
+                self._conn_lost += 1
+                self._loop.call_soon(self._call_connection_lost, None)
+                return
             if not self.lost:
                 self._protocol.resume_writing()
 
@@ -224,6 +239,10 @@ class Net:
     def live(self):
         """Transports usable by the client (not closing)."""
         return [t for t in self.conns if not t._closing]
+
+    def stalled(self):
+        """Transports whose peer window is closed and that have not been torn down (live or lingering in close())."""
+        return [t for t in self.conns if t.paused and not t.lost and not t._conn_lost]
 
     def unlost(self):
         """Transports opened and not yet torn down (connection_lost not delivered)."""
